@@ -74,3 +74,13 @@ def cond_subs(st):
             elif b.is_Symbol and a.is_Number:
                 sub[b] = a
     return sub
+
+
+def observe(fx, st, name, args=None, nparams=None):
+    """What a caller SEES: run the const accessor `name` on (a copy of) the object state `st` - the first access after the call that produced st.
+    Returns [(returned value, state after)]; raises sym.Unsupported when the accessor is not readable; None when it vanished."""
+    fs = [f for f in fx.fn(Q + name) if nparams is None or len(f['params']) == nparams]
+    if len(fs) != 1:
+        return None
+    out = reader(fx).run(fs[0], args=args, state=st.copy())
+    return [(s.ret, s) for s in out], fs[0]
